@@ -24,11 +24,11 @@ pub struct Case {
 fn n_random(prop: &str, tier: Tier) -> u64 {
     match (prop, tier) {
         ("C04", Tier::Quick) => 60_000,
-        ("C04", Tier::Thorough) => 4_000_000,
+        ("C04", Tier::Thorough) => 2_000_000,
         ("C11", Tier::Quick) => 40_000,
-        ("C11", Tier::Thorough) => 2_000_000,
+        ("C11", Tier::Thorough) => 1_000_000,
         ("C17", Tier::Quick) => 40_000,
-        ("C17", Tier::Thorough) => 2_000_000,
+        ("C17", Tier::Thorough) => 1_000_000,
         _ => 1000,
     }
 }
